@@ -217,6 +217,9 @@ static Profile profile(const std::string& name, bool T) {
         p.alphabet = {"qr1", "qr5", "qr6", "qr7", "aec0", "aec1", "mm1", "wb", "rotx", "act0", "act1", "act7"};
         for (uint64_t m0 : {0, 1, 2, 3}) for (uint64_t m1 : {1, 2}) for (int h : {0, 1, 2})
             p.cfgs.push_back({"m" + std::to_string(m0) + "_" + std::to_string(m1) + "_h" + std::to_string(h), {PS(m0, 1000000, h), PS(m1, 1000000, h)}, PS(2, 1000, 0)});
+        // limits beyond 32 bits: a limit that is truncated to 2 / 0 items would flush where the model does not
+        p.cfgs.push_back({"m2p32plus2_m2p32", {PS((1ULL << 32) + 2, 1000000, 0), PS(1ULL << 32, 1000000, 0)}, PS(2, 1000, 0)});
+        p.cfgs.push_back({"m2p63_m2p64m1", {PS(1ULL << 63, 1000000, 0), PS(UINT64_MAX, 1000000, 1)}, PS(2, 1000, 0)});
         p.runs = {{"", S_MEM, 0}}; p.depth_q = 5; p.depth_t = 6;
     } else if (name == "rotate") {
         p.alphabet = {"qr0", "qr3", "aec0", "mm0", "wb", "rotx", "rotn", "rots", "addbp", "act0", "act1"};
@@ -228,7 +231,7 @@ static Profile profile(const std::string& name, bool T) {
     } else if (name == "rotate-xz") {
         p = profile("rotate", T); p.runs = {{"", S_FILE, 2}, {"", S_FD, 2}}; p.alphabet = {"qr0", "aec0", "mm0", "wb", "rotx", "rotn", "rots", "addbp", "act1"}; p.depth_q = 2; p.depth_t = 3;
     } else if (name == "roundtrip") {
-        p.alphabet = {"qr0", "qr1s1", "qr2", "qr3s2", "qr4", "qr6", "aec0", "aec1s1", "aec2", "mm0", "mm1s2", "mm3", "wb", "act0", "act1", "rotx"};
+        p.alphabet = {"qr0", "qr1s1", "qr2", "qr3s2", "qr4", "qr6", "aec0", "aec1s1", "aec1s2", "aec2", "mm0", "mm1s2", "mm3", "wb", "act0", "act1", "rotx"};
         for (int h : {0, 3, 2, 5}) for (uint64_t tps : {1ULL, 1000ULL, 1000000ULL, 1000000000ULL}) for (uint64_t m : {1, 2, 3, 10000}) {
             if (!T && !((h == 0) || (tps == 1000000 && m == 2) || (h == 3 && tps == 1 && m == 3) || (h == 5 && tps == 1000000000 && m == 10000))) continue;
             p.cfgs.push_back({"h" + std::to_string(h) + "_t" + std::to_string(tps) + "_m" + std::to_string(m), {PS(m, tps, h, m == 2), PS(m == 1 ? 2 : 1, tps == 1000 ? 1000000 : 1000, h == 0 ? 3 : 0)}, PS(2, 1000, 0)});
@@ -239,6 +242,7 @@ static Profile profile(const std::string& name, bool T) {
         p.cfgs.push_back({"m2", {PS(2, 1000000, 0), PS(1, 1000, 1, true)}, PS(3, 1000, 0, true)});
         p.cfgs.push_back({"m0", {PS(0, 1000000, 0, 2)}, PS(1, 1000, 0, 3)});   // collection parameters present but empty
         p.cfgs.push_back({"m10000_h4", {PS(10000, 1, 4), PS(2, 1, 2)}, PS(1, 1000, 0)});
+        p.cfgs.push_back({"m2_h6_h7", {PS(2, 1000000, 6), PS(3, 1000, 7)}, PS(1, 1000, 6)});   // hint masks that keep every other member
         p.runs = {{"", S_MEM, 0}}; p.depth_q = 4; p.depth_t = 5;
     } else if (name == "times") {
         p.alphabet = {"qr2", "qr4", "qr3", "qr1", "mm0", "mm3", "mm1", "aec0"};
@@ -297,7 +301,8 @@ int main(int argc, char** argv) {
         // explicit-state search with de-duplication: state = history reaching it (replayed on a fresh exporter), frontier expanded breadth first,
         // every transition executed on the real object and fully checked (incl. the outputs after destruction); extensions of an already seen state are pruned
         int DB = atoi(a.kv["bfs"].c_str()); g_abstract_key = a.kv.count("abstract") > 0;
-        struct BT { size_t cfg, run; }; std::vector<BT> bts; for (size_t c = 0; c < pf.cfgs.size(); c++) for (size_t r = 0; r < pf.runs.size(); r++) bts.push_back({c, r});
+        struct BT { size_t cfg, run; }; std::vector<BT> bts; for (size_t c = 0; c < pf.cfgs.size(); c++) for (size_t r = 0; r < pf.runs.size(); r++) { if (pf.cfgs[c].sets[0].max_items >= (1ULL << 32)) continue;   // a block that is never full has no finite abstract state space: stateless search only
+            bts.push_back({c, r}); }
         Pool bp(a.jobs);
         bp.run(bts.size(), [&](uint64_t ti, Result& R) {
             const Cfg& cfg = pf.cfgs[bts[ti].cfg]; const Run& run = pf.runs[bts[ti].run];
